@@ -167,6 +167,25 @@ SPEC.update({
 })
 
 
+# SUTRA (reservoir thermal energy storage) writer: its own summary lines
+SPEC.update({
+    'Lifetime Average Well Flow Rate': ('wellbores.ProductionWellFlowRates', 'meanabs', 1, 1, 'cur'),
+    'Maximum Storage Well Temperature': ('wellbores.ProducedTemperature', 'max', 1, 1, 'pref'),
+    'Average Storage Well Temperature': ('wellbores.ProducedTemperature', M, 1, 1, 'pref'),
+    'Minimum Storage Well Temperature': ('wellbores.ProducedTemperature', 'min', 1, 1, 'pref'),
+    'Maximum Balance Well Temperature': ('wellbores.Tinj', 'max', 1, 1, 'pref'),
+    'Average Balance Well Temperature': ('wellbores.Tinj', M, 1, 1, 'pref'),
+    'Minimum Balance Well Temperature': ('wellbores.Tinj', 'min', 1, 1, 'pref'),
+    'Maximum Annual Heat Stored': ('reserv.AnnualHeatStored', 'max', 1, 1, 'pref'),
+    'Average Annual Heat Stored': ('reserv.AnnualHeatStored', M, 1, 1, 'pref'),
+    'Minimum Annual Heat Stored': ('reserv.AnnualHeatStored', 'min', 1, 1, 'pref'),
+    'Maximum Annual Heat Supplied': ('reserv.AnnualHeatSupplied', 'max', 1, 1, 'pref'),
+    'Average Annual Heat Supplied': ('reserv.AnnualHeatSupplied', M, 1, 1, 'pref'),
+    'Minimum Annual Heat Supplied': ('reserv.AnnualHeatSupplied', 'min', 1, 1, 'pref'),
+    'Average Round-Trip Efficiency': ('reserv.AnnualRTESEfficiency', M, 1, 1, 'pref'),
+})
+
+
 def _v(snap, path):
     p = get(snap, path)
     return None if p is None else p['value']
@@ -282,7 +301,7 @@ def section_tables(lines):
     return out
 
 
-def check_report(chk: core.Check, name, params, r, lines_out, pending):
+def check_report(chk: core.Check, name, params, r, lines_out, pending, tables=True):
     snap, report = r['snap'], r['report']
     fam = family(snap)
     lines = report.splitlines()
@@ -332,6 +351,13 @@ def check_report(chk: core.Check, name, params, r, lines_out, pending):
             else:
                 chk.fail(f'C09/figure/{label}', f'"{label}" shows N/A although the computed value is {xs[0]!r}', {**rep, 'line': ln})
             continue
+        if agg == 'meanabs':
+            xs, agg = [abs(x) for x in xs], 'mean'      # the average flow magnitude: mean of the absolute values
+        if len(xs) > 3000 and agg in ('mean', 'max', 'min'):
+            # hourly series of a storage case (hundreds of thousands of points): aggregated here with numpy, as the writer does; the model only rounds
+            import numpy as np
+            xs, agg = [float({'mean': np.average, 'max': np.max, 'min': np.min}[agg](np.array(xs)))], 'scalar'
+            chk.tag('figure/long-series-aggregated-in-python')
         cid = f'f{len(pending)}'
         lines_out.append(f'figure {cid} agg={agg} scale={core.frac(scale)} d={d} xs={",".join(core.frac(x) for x in xs)}')
         want_unit = None
@@ -343,6 +369,8 @@ def check_report(chk: core.Check, name, params, r, lines_out, pending):
         elif isinstance(unit, str):
             want_unit = unit
         pending.append(('line', name, rep, label, ln, m['num'], (m['unit'] or '').strip(), want_unit, d, xs, agg, scale))
+    if not tables:
+        return seen_unspecified
     # ---- tables ---------------------------------------------------------------------------------------------------------------------------
     tabs = section_tables(lines)
     first_year, cols = PROD_TABLE[fam]
@@ -479,8 +507,14 @@ def evaluate(chk: core.Check, cases):
         if not r['ok'] or r['snap'] is None:
             chk.tag('run/failed')
             continue
-        if r['snap'].get('outputs', {}).get('class') != 'Outputs':
-            chk.tag('run/other-writer-not-covered:' + str(r['snap'].get('outputs', {}).get('class')))
+        wcls = r['snap'].get('outputs', {}).get('class')
+        if wcls == 'SUTRAOutputs':
+            chk.tag('run/ok-sutra-writer')
+            for u in check_report(chk, name, params, r, lines_out, pending, tables=False):
+                unspecified[u] = unspecified.get(u, 0) + 1
+            continue
+        if wcls != 'Outputs':
+            chk.tag('run/other-writer-not-covered:' + str(wcls))
             continue
         chk.tag('run/ok')
         un = check_report(chk, name, params, r, lines_out, pending)
@@ -525,6 +559,13 @@ def session_cases():
     d = geo.base_params(2, 1, 1, L=7, n=2)
     d['Units:Pumping Power'] = 'kW'
     out.append(('directive/pumping-power-kW', d))
+    sutra = [f for f in geo.example_files() if f.name == 'SUTRAExample1.txt']
+    if sutra:
+        out.append(('SUTRAExample1.txt', geo.example_text(sutra[0])))
+    for nseg in (2, 3, 4):
+        g = geo.base_params(2, 1, 1, L=6, n=1)
+        g.update({'Number of Segments': nseg, 'Gradient 1': 55, 'Thickness 1': 1.2, 'Gradient 2': 41, 'Thickness 2': 0.9, 'Gradient 3': 33, 'Thickness 3': 0.6, 'Gradient 4': 27, 'Reservoir Depth': 3.4})
+        out.append((f'segments/{nseg}', g))
     for k, (econ, eu, pl) in enumerate([(2, 1, 1), (3, 2, 9)]):
         a = geo.base_params(econ, eu, pl, L=12, n=1)
         a.update({'AddOn Nickname 1': 'x', 'AddOn CAPEX 1': 10 + 5 * k, 'AddOn OPEX 1': 1, 'AddOn Electricity Gained 1': 4e6, 'AddOn Heat Gained 1': 1e6 * k, 'AddOn Profit Gained 1': 0.5,
@@ -570,7 +611,7 @@ def run(chk: core.Check) -> int:
     chk.assumptions += ['"the corresponding computed quantity" is fixed by the specification table in harness/props/c09.py (label -> quantity, aggregate, scale, decimals, unit source), written from the '
                         'meaning of the labels; labels without an entry are listed in coverage.unspecified_labels_seen and are not decided',
                         'a figure whose exact value lies within 1e-7 of a rounding boundary is skipped (the writer aggregates and scales in binary floating point)',
-                        'add-on, S-DAC-GT, SUTRA and HIP-RA-X writers and the HTML / rich output are not covered']
+                        'the SUTRA writer is covered for its summary lines only; the HIP-RA-X writer and the HTML / rich output are not covered']
     chk.trusted += ['the report tokeniser of this harness (regular expressions, independent of the client parser)']
     return chk.finish(rule=RULE)
 
